@@ -164,6 +164,41 @@ def run(ctx):
             if hit:
                 ctx.violation('private key material in a public view', {'op': 'view %s' % vname, 'kind': 'HDKey' if hd else 'Key', 'network': net,
                                                                         'history': hist, 'encodings_found': hit[:5]})
+        # PUBLIC exports asked of the private object (also with an explicit version prefix, bytes or hex): the strings and their
+        # Base58 payloads must not contain the secret
+        if hd:
+            from bitcoinlib.networks import Network
+            exports = {'private.wif_public()': lambda: k.wif_public(), 'private.wif(is_private=False)': lambda: k.wif(is_private=False)}
+            try:
+                pre = Network(net).wif_prefix(is_private=False, witness_type='legacy')
+            except Exception:
+                pre = None
+            if pre is not None:
+                exports['private.wif_public(prefix=bytes)'] = lambda: k.wif_public(prefix=pre)
+                exports['private.wif_public(prefix=hex)'] = lambda: k.wif_public(prefix=pre.hex())
+                exports['private.wif(is_private=False, prefix=bytes)'] = lambda: k.wif(is_private=False, prefix=pre)
+            for vname, fn in exports.items():
+                try:
+                    st = fn()
+                except Exception:
+                    ctx.count('public-export-refused:' + vname)
+                    continue
+                blobs = [st.encode()]
+                n_ = 0
+                ok58 = True
+                for ch in st:
+                    if ch not in '123456789ABCDEFGHJKLMNPQRSTUVWXYZabcdefghijkmnopqrstuvwxyz':
+                        ok58 = False
+                        break
+                    n_ = n_ * 58 + '123456789ABCDEFGHJKLMNPQRSTUVWXYZabcdefghijkmnopqrstuvwxyz'.index(ch)
+                if ok58:
+                    blobs.append(n_.to_bytes((n_.bit_length() + 7) // 8, 'big'))
+                ctx.evals += 1
+                ctx.count('view:' + vname)
+                hit = leaks(enc, blobs)
+                if hit:
+                    ctx.violation('private key material in a public export of a private key', {'op': 'view %s' % vname, 'network': net, 'history': hist,
+                                                                                              'encodings_found': hit[:5]})
         # default exports of the private object itself: as_dict() / as_json() without include_private, repr, str
         for vname, blobs in (('private.as_dict()', blobs_of(k.as_dict())), ('private.as_json()', [k.as_json().encode()]),
                              ('private.repr', [repr(k).encode()]), ('private.str', [str(k).encode()])):
